@@ -500,14 +500,37 @@ inductive StepR
 
 def knownTop : List String := ["openapi", "components", "info", "paths", "security", "servers", "tags", "externalDocs"]
 
-/-- kind of the typed position `ptr` in the document `j` (`none`: not a reference-capable position) -/
-def typedKind (j : Json) (ptr : List String) : Option Kind :=
-  ((enumDoc ⟨none, none⟩ "" j).find? (·.ptr == ptr)).map (·.kind)
+/-- the reference-capable positions of a document BY TYPE (pointer, kind), values only (a `$ref` object has no
+    children of its own) -/
+def specEnum : Nat → List String → Kind → Json → List (List String × Kind)
+  | 0, _, _, _ => []
+  | f + 1, ptr, k, j =>
+    (ptr, k) :: (if (refOf j).isSome then [] else
+      (specChildren k j).flatMap (fun c => specEnum f (ptr ++ c.toks) c.kind c.j))
 
-def typedNode (j : Json) (ptr : List String) : Option CNode :=
-  (enumDoc ⟨none, none⟩ "" j).find? (·.ptr == ptr)
+def specEnumDoc (j : Json) : List (List String × Kind) :=
+  (specDocChildren j).flatMap (fun c => specEnum 64 c.toks c.kind c.j)
 
-def stepGo (fs : Files) (rootData : Option Json) (cx : Cx) (text : String) (k : Kind) : StepR :=
+/-- per document (store key; `none` = the root document given as data), computed once per case:
+    `go` — the positions of the typed document tree as the loader's drill-down sees them;
+    `spec` — the reference-capable positions by type -/
+structure Tabs where
+  go   : List (Option String × List CNode)
+  spec : List (Option String × List (List String × Kind))
+
+def mkTabs (fs : Files) (rootData : Option Json) : Tabs :=
+  let docs : List (Option String × Json) :=
+    (match rootData with | some j => [(none, j)] | none => []) ++ fs.map (fun (k, j) => (some k, j))
+  { go := docs.map (fun (k, j) => (k, enumDoc ⟨none, none⟩ "" j)),
+    spec := docs.map (fun (k, j) => (k, specEnumDoc j)) }
+
+def Tabs.goOf (t : Tabs) (u : Option String) : List CNode := ((t.go.find? (·.1 == u)).map (·.2)).getD []
+
+/-- kind of the typed position `ptr` of document `u` by type (`none`: not a reference-capable position) -/
+def Tabs.specKind (t : Tabs) (u : Option String) (ptr : List String) : Option Kind :=
+  ((t.spec.find? (·.1 == u)).bind (fun e => e.2.find? (·.1 == ptr))).map (·.2)
+
+def stepGo (fs : Files) (rootData : Option Json) (tabs : Tabs) (cx : Cx) (text : String) (k : Kind) : StepR :=
   let docJson (u : Option String) : Option Json := match u with | some u => fetch fs u | none => rootData
   let (p, frag) := splitHash text
   match frag with
@@ -536,7 +559,7 @@ def stepGo (fs : Files) (rootData : Option Json) (cx : Cx) (text : String) (k : 
       let dsrc := match cdoc with | some u => storeKey u | none => ""
       -- `Header` embeds `Parameter` without a yaml tag: drillIntoField finds no field of a header, so every
       -- pointer that passes through a header object is a drill error (→ raw re-read)
-      let tab := enumDoc ⟨none, none⟩ "" dj
+      let tab := tabs.goOf (cdoc.map storeKey)
       let typedNode (_ : Json) (p : List String) : Option CNode := tab.find? (·.ptr == p)
       let throughHeader := (List.range toks.length).any (fun i => (typedNode dj (toks.take i)).any (fun n => n.kind == .header && n.ref.isNone) && i > 0)
       match (if throughHeader then none else typedNode dj toks) with
@@ -594,7 +617,7 @@ def stepSpec (fs : Files) (rootData : Option Json) (loc : Option String) (text :
 
 /-- the object a reference designates: follow the chain in the raw files; every hop must be an object and,
     where it sits at a typed position of its document, of the expected kind -/
-def specDesignates (fs : Files) (rootData : Option Json) : Nat → Option String → String → Kind → Option (Option String × Json)
+def specDesignates (fs : Files) (rootData : Option Json) (tabs : Tabs) : Nat → Option String → String → Kind → Option (Option String × Json)
   | 0, _, _, _ => none
   | f + 1, loc, text, k =>
     match stepSpec fs rootData loc text with
@@ -602,16 +625,15 @@ def specDesignates (fs : Files) (rootData : Option Json) : Nat → Option String
     | some (file, toks, v) =>
       if !isObj v then none
       else
-        let docj := match file with | some u => fetch fs u | none => rootData
         -- inside the typed part of a document (known top-level fields) the position must be one of kind k;
         -- whole files and positions under unknown top-level keys carry no kind of their own
         let kindOK := match toks with
           | [] => true
           | first :: _ =>
-            if knownTop.contains first then (docj.bind (fun d => typedKind d toks)) == some k else true
+            if knownTop.contains first then tabs.specKind file toks == some k else true
         if !kindOK then none
         else match refOf v with
-          | some t' => specDesignates fs rootData f file t' k
+          | some t' => specDesignates fs rootData tabs f file t' k
           | none => some (file, v)
 
 /-- the file an external fragment reference names (RFC resolution), when it exists: the loader loads
@@ -627,14 +649,14 @@ def specDocOf (fs : Files) (loc : Option String) (text : String) : Option String
 
 /-- all references that take part in the load: those reachable from the root document through designated
     objects, and those written in documents named by external fragment references: (rid, designated value) -/
-def specWalk (fs : Files) (rootData : Option Json) : Nat → List (Option String × Kind × Json × String) → List String → List (String × Option Json) → List (String × Option Json)
+def specWalk (fs : Files) (rootData : Option Json) (tabs : Tabs) : Nat → List (Option String × Kind × Json × String) → List String → List (String × Option Json) → List (String × Option Json)
   | 0, _, _, acc => acc
   | _, [], _, acc => acc
   | f + 1, (loc, k, j, name) :: rest, docs, acc =>
     match refOf j with
     | some t =>
       let rid := ridOf k j [name]
-      if acc.any (·.1 = rid) then specWalk fs rootData f rest docs acc
+      if acc.any (·.1 = rid) then specWalk fs rootData tabs f rest docs acc
       else
         let item (l : Option String) (c : Child) : Option String × Kind × Json × String := (l, c.kind, c.j, c.toks.getLast?.getD "")
         let (docs, extra) : List String × List (Option String × Kind × Json × String) := match specDocOf fs loc t with
@@ -643,10 +665,10 @@ def specWalk (fs : Files) (rootData : Option Json) : Nat → List (Option String
                 | some dj => (specDocChildren dj).map (item (some d))
                 | none => [])
           | none => (docs, [])
-        match specDesignates fs rootData 64 loc t k with
-        | none => specWalk fs rootData f (rest ++ extra) docs (acc ++ [(rid, none)])
+        match specDesignates fs rootData tabs 64 loc t k with
+        | none => specWalk fs rootData tabs f (rest ++ extra) docs (acc ++ [(rid, none)])
         | some (file, v) =>
-          specWalk fs rootData f (rest ++ extra ++ (specChildren k v).map (item file)) docs (acc ++ [(rid, some v)])
-    | none => specWalk fs rootData f (rest ++ (specChildren k j).map (fun c => (loc, c.kind, c.j, c.toks.getLast?.getD ""))) docs acc
+          specWalk fs rootData tabs f (rest ++ extra ++ (specChildren k v).map (item file)) docs (acc ++ [(rid, some v)])
+    | none => specWalk fs rootData tabs f (rest ++ (specChildren k j).map (fun c => (loc, c.kind, c.j, c.toks.getLast?.getD ""))) docs acc
 
 end KinModel.LoaderJson
